@@ -175,6 +175,22 @@ def sliceSizes (total B : Nat) : List Nat :=
 termination_by total
 decreasing_by omega
 
+/-- an `ObservableEvaluator(period, observables, num_samples=…, num_chains=…, burn_in=…, steps=…)` passed to `fit`
+in `callbacks=` (observable_evaluator.py:73-90, 185-187): at the end of every epoch `e` with `e % period == 0` it
+calls `System(*observables).statistics(nn_state, **sampling_kwargs)`, i.e. draws from torch's generator INSIDE the
+epoch loop, between the shuffles of consecutive epochs.  `period = periodPred + 1` and `num_samples = nsPred + 1`
+(`epoch % 0` and `num_samples = 0` raise `ZeroDivisionError` in the middle of the training; not modelled). -/
+structure EvalCb where
+  periodPred : Nat
+  nsPred : Nat
+  numChains : Nat
+  burnIn : Nat
+  steps : Nat
+  deriving DecidableEq, Repr, Inhabited
+
+def EvalCb.period (cb : EvalCb) : Nat := cb.periodPred + 1
+def EvalCb.numSamples (cb : EvalCb) : Nat := cb.nsPred + 1
+
 /-- arguments of `fit` that matter for the frame (neural_state.py:500-660). -/
 structure FitCfg where
   /-- number of rows of `data` -/
@@ -194,7 +210,12 @@ structure FitCfg where
   bases : Option Nat
   /-- identifies everything else (data contents, lr, optimizer, …) -/
   arg : Nat
+  /-- an evaluator callback that samples during training (`callbacks=[ObservableEvaluator(…)]`), if any -/
+  evalCb : Option EvalCb := none
   deriving DecidableEq, Repr, Inhabited
+
+/-- the same `fit` call without its evaluator callback -/
+def FitCfg.noEval (c : FitCfg) : FitCfg := { c with evalCb := none }
 
 /-- `neg_batch_size if neg_batch_size else pos_batch_size` (neural_state.py:576) -/
 def FitCfg.negB' (c : FitCfg) : Nat :=
@@ -233,8 +254,17 @@ def batchCalls (A : Arch) (k N posB negB negTotal : Nat) : List Call :=
   ((List.zip (sliceSizes N posB) (sliceSizes negTotal negB)).map
     (fun p => gibbsCalls A k p.2)).flatten
 
+/-- the random calls of the evaluator callback at the end of epoch `e` (observable_evaluator.py:185-187:
+`if epoch % self.period == 0: self.system.statistics(nn_state, **self.sampling_kwargs)`); none without evaluator. -/
+def evalCalls (A : Arch) (c : FitCfg) (e : Nat) : List Call :=
+  match c.evalCb with
+  | none => []
+  | some cb =>
+    if e % cb.period = 0 then (statCalls A cb.numSamples cb.numChains cb.burnIn cb.steps none).1 else []
+
 /-- all random calls of one `fit`, in order; `some e` if it raises (then no parameter was
-written: every raise happens before the first optimizer step). -/
+written: every raise happens before the first optimizer step).  Epoch `e = starting_epoch + j`: the shuffle,
+the Gibbs chains of its batches, then — `callbacks.on_epoch_end` — the evaluator's sampling if one is installed. -/
 def fitCalls (A : Arch) (c : FitCfg) : List Call × Option Err :=
   if A.kind ≠ .pos ∧ c.bases = none then ([], some .ValueError)   -- complex_wavefunction.py:233, density_matrix.py:352
   else if c.posB = 0 then ([], some .ZeroDivisionError)            -- ceil(N / pos_batch_size)
@@ -246,7 +276,7 @@ def fitCalls (A : Arch) (c : FitCfg) : List Call × Option Err :=
     | some e => (sh.1, some e)
     | none =>
       let epoch := sh.1 ++ batchCalls A c.k c.N c.posB c.negB' sh.2.2
-      ((List.replicate c.numEpochs epoch).flatten, none)
+      (((List.range c.numEpochs).map (fun j => epoch ++ evalCalls A c (c.startEpoch + j))).flatten, none)
 
 /-! ### operations -/
 
@@ -277,6 +307,9 @@ inductive Op where
   | gradient (slot arg : Nat)
   /-- `compute_batch_gradients(k, samples, neg_batch)` with `rows` negative-phase rows -/
   | batchGradient (slot k rows arg : Nat)
+  /-- `Observable.sample(nn_state, k, num_samples, initial_state, overwrite)` (observable.py:107-133):
+  `nn_state.sample(…)` followed by `apply`; `arg` identifies the observable -/
+  | obsSample (slot k num : Nat) (init : Option Nat) (arg : Nat)
   /-- `save(path)` -/
   | save (slot path : Nat)
   /-- `load(path)` -/
@@ -302,6 +335,7 @@ def Op.slot? : Op → Option Nat
   | .rotate i _ => some i
   | .gradient i _ => some i
   | .batchGradient i _ _ _ => some i
+  | .obsSample i _ _ _ _ => some i
   | .save i _ => some i
   | .load i _ => some i
   | _ => none
@@ -320,7 +354,7 @@ def Op.writesParams : Op → Bool
 (their only effect on the process is advancing torch's generator). -/
 def Op.isPure : Op → Bool
   | .sample .. | .statistics .. | .eval .. | .metric .. | .rotate .. | .gradient ..
-  | .batchGradient .. | .burn _ => true
+  | .batchGradient .. | .obsSample .. | .burn _ => true
   | _ => false
 
 /-- the random calls an operation on an object of architecture `A` makes, and whether it raises. -/
@@ -331,6 +365,7 @@ def Op.plan (op : Op) (A : Arch) : List Call × Option Err :=
   | .statistics _ ns nc bi stp init _ => statCalls A ns nc bi stp init
   | .fit _ cfg => fitCalls A cfg
   | .batchGradient _ k rows _ => (gibbsCalls A k rows, none)
+  | .obsSample _ k num init _ => (sampleCalls A k num init, none)
   | _ => ([], none)
 
 /-! ### semantics -/
@@ -478,13 +513,24 @@ def statDraws (A : Arch) (numSamples numChains burnIn steps : Nat) (init : Optio
   let chains := statChains numSamples numChains init
   sampleDraws A burnIn chains init + (ceilDiv numSamples chains - 1) * (steps * (chains * units A))
 
+/-- number of epochs `e` in `range(starting_epoch, epochs + 1)` with `e % p == 0` -/
+def evalEpochs (c : FitCfg) (p : Nat) : Nat :=
+  ((List.range c.numEpochs).filter (fun j => (c.startEpoch + j) % p = 0)).length
+
+/-- draws of the evaluator callback over the whole `fit`: one `statistics` per epoch divisible by the period -/
+def evalDraws (A : Arch) (c : FitCfg) : Nat :=
+  match c.evalCb with
+  | none => 0
+  | some cb => evalEpochs c cb.period * statDraws A cb.numSamples cb.numChains cb.burnIn cb.steps none
+
 /-- fit: per epoch one `randperm(N)`, `randint(numBatches·negB)` unless the permutation is shared,
-and `k` Gibbs steps on every negative-phase row. -/
+and `k` Gibbs steps on every negative-phase row; plus the evaluator callback's sampling (`evalDraws`). -/
 def fitDraws (A : Arch) (c : FitCfg) : Nat :=
   let numBatches := ceilDiv c.N c.posB
   let shared := effBases A c = none ∧ c.negB' = c.posB
   let negTotal := if shared then c.N else numBatches * c.negB'
   c.numEpochs * (c.N + (if shared then 0 else numBatches * c.negB') + c.k * (negTotal * units A))
+    + evalDraws A c
 
 /-! ### an executable instance (used by the driver): values are hash tokens -/
 
@@ -501,8 +547,11 @@ def optCode : Option Nat → List Nat
   | none => [0]
   | some x => [1, x]
 
+def EvalCb.code (cb : EvalCb) : List Nat := [cb.periodPred, cb.nsPred, cb.numChains, cb.burnIn, cb.steps]
+
 def FitCfg.code (c : FitCfg) : List Nat :=
   [c.N, c.epochs, c.startEpoch, c.posB, c.k, c.arg] ++ optCode c.negB ++ optCode c.bases
+    ++ (match c.evalCb with | none => [0] | some cb => 1 :: cb.code)
 
 /-- injective-enough encoding of an operation WITHOUT its slot (the value an operation returns
 does not depend on which Python variable holds the state). -/
@@ -519,6 +568,7 @@ def Op.code : Op → List Nat
   | .rotate _ arg => [10, arg]
   | .gradient _ arg => [11, arg]
   | .batchGradient _ k rows arg => [12, k, rows, arg]
+  | .obsSample _ k num init arg => [19, k, num, arg] ++ optCode init
   | .save _ p => [13, p]
   | .load _ p => [14, p]
   | .seedNumpy s => [15, s]
